@@ -491,20 +491,6 @@ func pTighten(args []string) string {
 	if res != "ok" {
 		return "FAIL refused-a-legal-image " + res
 	}
-	// in-memory: freed blocks are a padding at the start of the BIOS region
-	freed := int(uint64(bios.base)*blk - newEnd)
-	var br *uefi.BIOSRegion
-	for _, r := range t1.Regions {
-		if b, ok := r.Value.(*uefi.BIOSRegion); ok {
-			br = b
-		}
-	}
-	if br == nil || len(br.Elements) == 0 {
-		return "FAIL no-bios-elements"
-	}
-	if p, ok := br.Elements[0].Value.(*uefi.BIOSPadding); !ok || p.Offset != 0 || len(p.Buf()) != freed || !allEq(p.Buf(), pol) {
-		return "FAIL freed-blocks-not-a-leading-erased-padding"
-	}
 	out, r := save(f1)
 	if r != "ok" {
 		return "FAIL save-after-tighten-" + r
@@ -537,6 +523,20 @@ func pTighten(args []string) string {
 		if p.valid() && uint64(p.off)+uint64(p.length) > newSize {
 			return "FAIL partition-outside"
 		}
+	}
+	// in-memory: freed blocks are a padding at the start of the BIOS region
+	freed := int(uint64(bios.base)*blk - newEnd)
+	var br *uefi.BIOSRegion
+	for _, r := range t1.Regions {
+		if b, ok := r.Value.(*uefi.BIOSRegion); ok {
+			br = b
+		}
+	}
+	if br == nil || len(br.Elements) == 0 {
+		return "FAIL no-bios-elements"
+	}
+	if p, ok := br.Elements[0].Value.(*uefi.BIOSPadding); !ok || p.Offset != 0 || len(p.Buf()) != freed || !allEq(p.Buf(), pol) {
+		return "FAIL freed-blocks-not-a-leading-erased-padding"
 	}
 	// tiling: same blocks covered as before, none twice
 	c1, c2 := coverage(d, len(img)), coverage(d2, len(out))
@@ -738,6 +738,94 @@ func buildME(r *Rng, me []byte, pol byte, o meOpts) {
 	}
 }
 
+// putTable writes a "$FPT" header and entries at off.
+func putTable(r *Rng, me []byte, off int, entries []part, pol byte) {
+	h := me[off:]
+	copy(h, "$FPT")
+	binary.LittleEndian.PutUint32(h[4:], uint32(len(entries)))
+	fill(r, h[8:32], 2, pol)
+	for k, p := range entries {
+		e := h[32+32*k:]
+		fill(r, e[:32], 2, pol)
+		binary.LittleEndian.PutUint32(e[8:], p.off)
+		binary.LittleEndian.PutUint32(e[12:], p.length)
+	}
+}
+
+// buildTwoTables: a live partition table at the start of the ME region and a second "$FPT"
+// inside the body of the first partition: an identical backup, a stale backup that lists only
+// the first partitions, a table with other (smaller) extents, or a bare "$FPT" byte string.
+// The partitions that only the live table lists are allocated but blank (erased), and end in
+// a later block than the ones the stale table lists - the layout of a fresh MFS/FLOG behind
+// an FPTB backup.  Everything after the last live partition's block is erased.
+func buildTwoTables(r *Rng, me []byte, pol byte) {
+	for i := range me {
+		me[i] = pol
+	}
+	nblk := len(me) / blk
+	k := r.Range(2, 4)      // live partitions
+	j := r.Range(1, k-1)    // those the stale table knows
+	m := r.Range(1, nblk-1) // partitions 1..j end at or before block m, the others after it
+	// partition ends
+	ends := make([]int, k)
+	lo := 0x400 + 0x200
+	for i := 0; i < j; i++ {
+		hi := m*blk - (j-1-i)*0x40
+		ends[i] = r.Range(lo+0x40, hi)
+		if i == j-1 && r.Chance(1, 3) {
+			ends[i] = m * blk
+		}
+		lo = ends[i]
+	}
+	lo = m * blk
+	for i := j; i < k; i++ {
+		hi := len(me) - (k-1-i)*0x40
+		ends[i] = r.Range(lo+0x40, hi)
+		if i == k-1 && r.Chance(1, 3) {
+			if v := r.Pick(len(me), (m+1)*blk); v >= lo+0x40 {
+				ends[i] = v
+			}
+		}
+		lo = ends[i]
+	}
+	var live []part
+	start := 0x400
+	for i := 0; i < k; i++ {
+		live = append(live, part{uint32(start), uint32(ends[i] - start)})
+		if i < j {
+			fill(r, me[start:ends[i]], 1+r.Intn(2), pol) // data; the later ones stay blank
+		}
+		start = ends[i]
+	}
+	tbl := append([]part{}, live...)
+	if r.Chance(1, 3) { // unused entries in between
+		tbl = append(tbl, part{0xffffffff, uint32(r.U64())}, part{0, 0x100})
+	}
+	fptAt := r.Pick(16, 16, 0)
+	putTable(r, me, fptAt, tbl, pol)
+	// the second signature, inside partition 1's body
+	second := 0x400 + 8*r.Intn(8)
+	room := ends[0] - second
+	switch mode := r.Intn(5); {
+	case mode == 0 && room >= 32+32*len(tbl): // identical backup
+		copy(me[second:], me[fptAt:fptAt+32+32*len(tbl)])
+	case mode == 1 && room >= 32+32*len(tbl): // other, smaller extents
+		var other []part
+		for i := 0; i < len(live); i++ {
+			other = append(other, part{uint32(0x400 + 0x10*i), uint32(r.Range(1, 0x100))})
+		}
+		putTable(r, me, second, other, pol)
+	case mode == 2: // a bare "$FPT" byte string (what follows is partition data)
+		copy(me[second:], "$FPT")
+	default: // stale backup: only the first j partitions
+		if room >= 32+32*j {
+			putTable(r, me, second, live[:j], pol)
+		} else {
+			copy(me[second:], "$FPT")
+		}
+	}
+}
+
 func buildBIOS(r *Rng, b []byte, pol byte, kind int) {
 	for i := range b {
 		b[i] = pol
@@ -841,6 +929,12 @@ func genImage(r *Rng, class int) (img []byte, pol byte) {
 		}
 		meBlocks = r.Pick(2, 3)
 	}
+	// two "$FPT" signatures in the ME region: fiano must use the FIRST one (bytes.Index)
+	twoTables := class == 9
+	if twoTables {
+		class = 0
+		meBlocks = r.Pick(3, 3, 4, 5)
+	}
 	biosFirst := false
 	switch class {
 	case 1:
@@ -936,122 +1030,126 @@ func genImage(r *Rng, class int) (img []byte, pol byte) {
 	}
 	// ME region content
 	me := img[meB*blk : (meL+1)*blk]
-	var o meOpts
-	o.tailDirtAt = -1
-	o.fptAt = r.Pick(16, 16, 16, 0, 0x100)
-	ne := r.Pick(0, 1, 1, 2, 3, 5, 8)
-	limitEnd := len(me)
-	// choose where the last partition ends
-	endAt := 0
-	switch r.Intn(5) {
-	case 0: // on a block boundary
-		endAt = blk * r.Range(1, meBlocks)
-	case 1: // just past a boundary
-		endAt = blk*r.Range(0, meBlocks-1) + r.Pick(1, 2, 0x400, 0x401)
-		if endAt < 0x400 {
-			endAt = 0x400 + r.Intn(64)
-		}
-	case 2: // just before a boundary
-		endAt = blk*r.Range(1, meBlocks) - r.Pick(1, 2, 16)
-	case 3: // exactly the region
-		endAt = limitEnd
-	default:
-		endAt = r.Range(0x400, limitEnd)
-	}
-	tableEnd := o.fptAt + 32 + 32*ne
-	if endAt < tableEnd {
-		endAt = tableEnd
-	}
-	if endAt > limitEnd {
-		endAt = limitEnd
-	}
-	for k := 0; k < ne; k++ {
-		var p part
-		switch r.Intn(6) {
-		case 0:
-			p = part{0, uint32(r.Intn(0x10000))} // unused
-		case 1:
-			p = part{0xffffffff, uint32(r.U64())} // unused
+	if twoTables {
+		buildTwoTables(r, me, pol)
+	} else {
+		var o meOpts
+		o.tailDirtAt = -1
+		o.fptAt = r.Pick(16, 16, 16, 0, 0x100)
+		ne := r.Pick(0, 1, 1, 2, 3, 5, 8)
+		limitEnd := len(me)
+		// choose where the last partition ends
+		endAt := 0
+		switch r.Intn(5) {
+		case 0: // on a block boundary
+			endAt = blk * r.Range(1, meBlocks)
+		case 1: // just past a boundary
+			endAt = blk*r.Range(0, meBlocks-1) + r.Pick(1, 2, 0x400, 0x401)
+			if endAt < 0x400 {
+				endAt = 0x400 + r.Intn(64)
+			}
+		case 2: // just before a boundary
+			endAt = blk*r.Range(1, meBlocks) - r.Pick(1, 2, 16)
+		case 3: // exactly the region
+			endAt = limitEnd
 		default:
-			lo := tableEnd + r.Intn(endAt-tableEnd+1)
+			endAt = r.Range(0x400, limitEnd)
+		}
+		tableEnd := o.fptAt + 32 + 32*ne
+		if endAt < tableEnd {
+			endAt = tableEnd
+		}
+		if endAt > limitEnd {
+			endAt = limitEnd
+		}
+		for k := 0; k < ne; k++ {
+			var p part
+			switch r.Intn(6) {
+			case 0:
+				p = part{0, uint32(r.Intn(0x10000))} // unused
+			case 1:
+				p = part{0xffffffff, uint32(r.U64())} // unused
+			default:
+				lo := tableEnd + r.Intn(endAt-tableEnd+1)
+				if lo == 0 {
+					lo = 1
+				}
+				hi := lo + r.Intn(endAt-lo+1)
+				if r.Chance(1, 3) { // round sizes: 1 KiB / 4 KiB multiples
+					a := r.Pick(0x400, 0x1000)
+					if l2 := (lo + a - 1) / a * a; l2 <= endAt {
+						lo = l2
+						hi = lo + (endAt-lo)/a*a
+						if r.Bool() && hi-lo >= 2*a {
+							hi -= a
+						}
+					}
+				}
+				p = part{uint32(lo), uint32(hi - lo)}
+			}
+			o.entries = append(o.entries, p)
+		}
+		if ne > 0 && r.Chance(4, 5) {
+			// make one entry end exactly at endAt
+			k := r.Intn(ne)
+			lo := tableEnd
 			if lo == 0 {
 				lo = 1
 			}
-			hi := lo + r.Intn(endAt-lo+1)
-			if r.Chance(1, 3) { // round sizes: 1 KiB / 4 KiB multiples
-				a := r.Pick(0x400, 0x1000)
-				if l2 := (lo + a - 1) / a * a; l2 <= endAt {
-					lo = l2
-					hi = lo + (endAt-lo)/a*a
-					if r.Bool() && hi-lo >= 2*a {
-						hi -= a
-					}
+			if endAt > lo {
+				lo += r.Intn(endAt - lo)
+			}
+			o.entries[k] = part{uint32(lo), uint32(endAt - lo)}
+		}
+		if (class == 0 || class == 3) && meBlocks >= 2 && r.Chance(1, 12) {
+			// a long table whose unused entries are erased: the table itself reaches into the
+			// space tighten_me frees (the saved file then has no parsable table any more)
+			ne = r.Range(100, 220)
+			if o.fptAt+32+32*ne > limitEnd {
+				ne = (limitEnd - o.fptAt - 32) / 32
+			}
+			o.entries = make([]part, ne)
+			for k := range o.entries {
+				o.entries[k] = part{0xffffffff, 0xffffffff}
+			}
+			endAt = r.Pick(0x800, 0xfff, 0x1000, 0x1001)
+			lo := r.Range(0x400, endAt-1)
+			o.entries[r.Intn(3)] = part{uint32(lo), uint32(endAt - lo)}
+		}
+		switch class {
+		case 3: // non-erased byte in the space that would be freed (or in the slack before it)
+			up := (endAt + blk - 1) / blk * blk
+			if r.Chance(3, 4) && up < limitEnd {
+				o.tailDirtAt = up + r.Intn(limitEnd-up)
+				if r.Chance(1, 3) {
+					o.tailDirtAt = r.Pick(up, limitEnd-1)
 				}
+			} else if endAt < up {
+				o.tailDirtAt = endAt + r.Intn(up-endAt) // slack inside the last kept block: must not matter
 			}
-			p = part{uint32(lo), uint32(hi - lo)}
-		}
-		o.entries = append(o.entries, p)
-	}
-	if ne > 0 && r.Chance(4, 5) {
-		// make one entry end exactly at endAt
-		k := r.Intn(ne)
-		lo := tableEnd
-		if lo == 0 {
-			lo = 1
-		}
-		if endAt > lo {
-			lo += r.Intn(endAt - lo)
-		}
-		o.entries[k] = part{uint32(lo), uint32(endAt - lo)}
-	}
-	if (class == 0 || class == 3) && meBlocks >= 2 && r.Chance(1, 12) {
-		// a long table whose unused entries are erased: the table itself reaches into the
-		// space tighten_me frees (the saved file then has no parsable table any more)
-		ne = r.Range(100, 220)
-		if o.fptAt+32+32*ne > limitEnd {
-			ne = (limitEnd - o.fptAt - 32) / 32
-		}
-		o.entries = make([]part, ne)
-		for k := range o.entries {
-			o.entries[k] = part{0xffffffff, 0xffffffff}
-		}
-		endAt = r.Pick(0x800, 0xfff, 0x1000, 0x1001)
-		lo := r.Range(0x400, endAt-1)
-		o.entries[r.Intn(3)] = part{uint32(lo), uint32(endAt - lo)}
-	}
-	switch class {
-	case 3: // non-erased byte in the space that would be freed (or in the slack before it)
-		up := (endAt + blk - 1) / blk * blk
-		if r.Chance(3, 4) && up < limitEnd {
-			o.tailDirtAt = up + r.Intn(limitEnd-up)
-			if r.Chance(1, 3) {
-				o.tailDirtAt = r.Pick(up, limitEnd-1)
+		case 4: // a partition ends beyond the ME region
+			if ne == 0 {
+				o.entries = append(o.entries, part{})
+				ne = 1
 			}
-		} else if endAt < up {
-			o.tailDirtAt = endAt + r.Intn(up-endAt) // slack inside the last kept block: must not matter
+			o.entries[r.Intn(ne)] = part{uint32(r.Range(1, limitEnd)), uint32(limitEnd + r.Pick(1, 4096, 0x7fffffff, 0xffffffff))}
+		case 5: // no table
+			o.fptAt = -1
+			if r.Bool() {
+				o.entries = nil
+			}
+		case 6: // table present but count runs past the region
+			// handled after buildME
 		}
-	case 4: // a partition ends beyond the ME region
-		if ne == 0 {
-			o.entries = append(o.entries, part{})
-			ne = 1
+		buildME(r, me, pol, o)
+		if class == 6 && o.fptAt >= 0 {
+			binary.LittleEndian.PutUint32(me[o.fptAt+4:], uint32(r.Pick(0x1000, 0x7fffffff, 0xffffffff, len(me)/32)))
 		}
-		o.entries[r.Intn(ne)] = part{uint32(r.Range(1, limitEnd)), uint32(limitEnd + r.Pick(1, 4096, 0x7fffffff, 0xffffffff))}
-	case 5: // no table
-		o.fptAt = -1
-		if r.Bool() {
-			o.entries = nil
-		}
-	case 6: // table present but count runs past the region
-		// handled after buildME
-	}
-	buildME(r, me, pol, o)
-	if class == 6 && o.fptAt >= 0 {
-		binary.LittleEndian.PutUint32(me[o.fptAt+4:], uint32(r.Pick(0x1000, 0x7fffffff, 0xffffffff, len(me)/32)))
-	}
-	if class == 5 && len(o.entries) == 0 && r.Bool() {
-		// entirely erased ME region without table: tighten empties it
-		for i := range me {
-			me[i] = pol
+		if class == 5 && len(o.entries) == 0 && r.Bool() {
+			// entirely erased ME region without table: tighten empties it
+			for i := range me {
+				me[i] = pol
+			}
 		}
 	}
 	// BIOS region
@@ -1111,7 +1209,7 @@ func gen(r *Rng, tier string, emit Emit) {
 	}
 	for it := 0; it < n; it++ {
 		rr := r.Fork(uint64(it))
-		class := rr.Pick(0, 0, 0, 0, 0, 0, 1, 2, 3, 3, 4, 5, 6, 7, 8)
+		class := rr.Pick(0, 0, 0, 0, 0, 0, 1, 2, 3, 3, 4, 5, 6, 7, 8, 9, 9)
 		img, pol := genImage(rr, class)
 		e := encImg(img)
 		emit("C", "parse", e)
